@@ -134,7 +134,8 @@ def _marker_protocol(ctx, variant):
         reads_version = any(isinstance(x, ast.Name) and x.id.upper().startswith('VERSION') for st in src for x in ast.walk(st.value))
         ctx.ob('C16.R4', 'marker:version-bound-non-empty', dm.where(src[-1]) if src else dm.where(dm.tree.body[0]),
                'the marker embeds the beartype version (a new release never reuses old bytecode) and cannot be empty',
-               reads_version and len(v) > 0 and (not isinstance(ver, str) or ver.replace('.', 'v') in v or ver in v), f'{txt[:100]} = {v!r}')
+               len(v) > 0 and ((ver.replace('.', 'v') in v or ver in v) if isinstance(ver, str) and ver else reads_version),
+               f'{txt[:100]} = {v!r} (package version {ver!r})')
     ctx.require(markers, f'{variant.qual}: no module-level marker constant read')
 
 
